@@ -4,3 +4,10 @@ import PMH.Props.C16
 #print axioms PMH.C16.squeeze_tests_sound
 #print axioms PMH.C16.density_identity
 #print axioms PMH.C16.rejection_mass
+#print axioms PMH.C16.acceptance_is_under_curve
+#print axioms PMH.C16.accepted_region_measure
+#print axioms PMH.C16.sample_law
+#print axioms PMH.C16.sample_distribution_function
+#print axioms PMH.C16.fuel_defect_bounds
+#print axioms PMH.C16.distribution_function_limit
+#print axioms PMH.C16.iid_uniform_draws_exist
